@@ -110,6 +110,19 @@ theorem quiescent_is_final (sp : Spec) (rk : String → Nat) (hd : DetClass sp r
   have hq' := run_qinv sp orc rk hd.ok hd.starts evs (adm_of_plain sp orc _ init (plain_start orc evs hp))
   exact (quiescent_complete sp orc rk hd.ok hd.known _ hq' hq.1 hq.2).1
 
+/-- number of executions per task at quiescence (towards the multiset reading of the outcome): a
+    task outside the semantic set has no execution, a task of the semantic set at least one, and
+    a JOIN of the semantic set EXACTLY ONE - in every plain history, for every definition of the
+    class (for a task that is not a join the number of executions is that of the routes that fired
+    to it, which is a property of the definition: one for single-activation definitions; not proved) -/
+theorem executions_per_task (sp : Spec) (rk : String → Nat) (hd : DetClass sp rk) (orc : String → Bool)
+    (evs : List Event) (hp : Plain orc evs) (hq : Quiescent (run sp (.start :: evs))) (n : String) :
+    (sem sp orc n = none → countL (run sp (.start :: evs)).tasks n = 0) ∧
+    (sem sp orc n ≠ none → 1 ≤ countL (run sp (.start :: evs)).tasks n) ∧
+    ((isJoin sp n).isSome = true → sem sp orc n ≠ none → countL (run sp (.start :: evs)).tasks n = 1) := by
+  have hq' := run_qinv sp orc rk hd.ok hd.starts evs (adm_of_plain sp orc _ init (plain_start orc evs hp))
+  exact quiescent_row_counts sp orc rk hd.ok _ hq' hq.1 hq.2 n
+
 /-! ### (c) schedule independence of the outcome -/
 
 /-- (c) "the final state, task states … are a function of the definition, the input and the action
